@@ -108,6 +108,7 @@ fn one_stream(ctx: &Ctx, acc: &mut Acc, l: L, lang: &text2num::Language, syms: &
 pub fn run(tier: Tier) -> i32 {
     let ctx = Ctx::new("C07", tier);
     let (kf, kc) = tier.pick((2usize, 5usize), (3, 6));
+    let rmax = tier.pick(40usize, 300usize);
     let mut total = Acc::new();
     let mut sizes = vec![];
     for l in langs::ALL {
@@ -122,6 +123,13 @@ pub fn run(tier: Tier) -> i32 {
                 one_stream(&ctx, acc, l, &lang, syms)
             }
         }));
+        // the whole class alphabet (scale ordinals, large scales, compound) at a smaller depth
+        let cls_all = vocab::sigma_cls(l);
+        total.merge(explore::all_sequences2(&cls_all, 4, |syms, acc| {
+            if syms.len() > kf && syms.iter().any(|s| !cls.iter().any(|c| c == s)) {
+                one_stream(&ctx, acc, l, &lang, syms)
+            }
+        }));
         // streams with 'unrelated to my predecessor' hints: clauses 1 and 3 must hold on them as well
         let mut hinted: Vec<String> = cls.iter().filter(|w| w.chars().any(|c| c.is_alphabetic())).take(8).cloned().collect();
         let plain = hinted.clone();
@@ -131,12 +139,14 @@ pub fn run(tier: Tier) -> i32 {
                 one_stream(&ctx, acc, l, &lang, syms)
             }
         }));
+        // long streams: every pattern of <= 2 class symbols repeated r times
+        total.merge(explore::all_repetitions(&cls, 2, 2..=rmax, |syms, acc| one_stream(&ctx, acc, l, &lang, syms)));
         total.sample(json!({"lang": l.code(), "stream": cls.iter().take(5).collect::<Vec<_>>()}));
     }
     let cov = json!({
         "exhaustive": true,
         "rule": "every token stream of length <= k over the alphabet (no hints, no annotation, threshold 0): scanner vs validator compared on three clauses; non-trivial = non-decimal occurrences re-validated",
-        "bounds": {"sigma_full_depth": kf, "sigma_cls_depth": kc, "hinted_streams": "8 class words, each plain or '~' (unrelated to its predecessor), depth <= 3 (thorough 4); clauses 1 and 3"},
+        "bounds": {"sigma_full_depth": kf, "sigma_cls_depth": kc, "whole_sigma_cls_depth": 4, "long_streams": {"pattern_depth": 2, "repetitions_up_to": rmax}, "hinted_streams": "8 class words, each plain or '~' (unrelated to its predecessor), depth <= 3 (thorough 4); clauses 1 and 3"},
         "alphabets": sizes,
     });
     ctx.finish(total, cov, vec![
